@@ -39,7 +39,7 @@ from ttconv.filters.isd.supported_style_properties import SupportedStyleProperti
 from ttconv.isd import ISD
 from ttconv.srt.paragraph import SrtParagraph
 from ttconv.srt.config import SRTWriterConfiguration
-from ttconv.style_properties import StyleProperties, FontStyleType, NamedColors, FontWeightType, TextDecorationType
+from ttconv.style_properties import StyleProperties, FontStyleType, NamedColors, FontWeightType, TextDecorationType, VisibilityType
 
 LOGGER = logging.getLogger(__name__)
 
@@ -62,6 +62,9 @@ class SrtContext:
         # Every values: `TextDecorationType.underline` is a field default (None), which matches no value
       ],
       StyleProperties.Color: [
+        # Every values
+      ],
+      StyleProperties.Visibility: [
         # Every values
       ],
     }),
@@ -149,7 +152,9 @@ class SrtContext:
       self._paragraphs[-1].append_text("\n")
 
     if isinstance(element, model.Text):
-      self._paragraphs[-1].append_text(element.get_text())
+      # text hidden by tts:visibility is not part of the subtitle
+      if element.parent().get_style(StyleProperties.Visibility) is not VisibilityType.hidden:
+        self._paragraphs[-1].append_text(element.get_text())
 
   def add_isd(self, isd, begin: Fraction, end: Optional[Fraction]):
     """Converts and appends ISD content to SRT content"""
